@@ -436,8 +436,26 @@ impl SuffixArrayDictionary {
         // Reconstruct suffix array (rebuild from dictionary text)
         let suffix_array = Arc::new(SuffixArray::new(&dictionary_text)?);
 
-        // Reconstruct DFA cache
-        let dfa_cache = DfaCache::deserialize(&serializable.dfa_cache_data)?;
+        // Create a minimal config for the deserialized dictionary
+        let config = SuffixArrayDictionaryConfig {
+            min_pattern_length: serializable.min_pattern_length,
+            max_pattern_length: serializable.max_pattern_length,
+            ..Default::default()
+        };
+
+        // Reconstruct DFA cache.  The cache image carries the pattern table and the cache
+        // configuration but not the transitions of its trie: a cache restored from the image
+        // alone refers to states its (empty) trie does not have, and the reloaded dictionary
+        // failed its own validate().  Check the image, then rebuild the cache over the restored
+        // suffix array the way `new` builds it.
+        let saved_cache = DfaCache::deserialize(&serializable.dfa_cache_data)?;
+        let dfa_cache = DfaCache::build_from_suffix_array(
+            &suffix_array,
+            &dictionary_text,
+            saved_cache.config(),
+            config.min_frequency,
+            config.max_bfs_depth,
+        )?;
 
         // Initialize pattern matcher
         let matcher = PatternMatcher::new(
@@ -446,13 +464,6 @@ impl SuffixArrayDictionary {
             serializable.min_pattern_length,
             serializable.max_pattern_length,
         );
-
-        // Create a minimal config for the deserialized dictionary
-        let config = SuffixArrayDictionaryConfig {
-            min_pattern_length: serializable.min_pattern_length,
-            max_pattern_length: serializable.max_pattern_length,
-            ..Default::default()
-        };
 
         Ok(Self {
             suffix_array,
